@@ -10,6 +10,7 @@ struct Env {
     denc: String,
     k1: bool,
     k3: bool,
+    k10: bool,
 }
 static ENV: OnceLock<Env> = OnceLock::new();
 
@@ -25,6 +26,7 @@ fuzz_target!(|data: &[u8]| {
             denc: c02::default_encoding(),
             k1: kf.is_open("C04", c04::K1),
             k3: kf.is_open("C04", c04::K3),
+            k10: kf.is_open("C04", c04::K10),
         }
     });
     let text = rosu_verif::refmodel::framing::decode_bytes(data);
@@ -33,7 +35,7 @@ fuzz_target!(|data: &[u8]| {
     }
     if let Ok(m1) = rosu_map::from_bytes::<rosu_map::Beatmap>(data) {
         if rosu_verif::props::c01::predicted_events(&m1) <= 2.0e6 {
-            if let Err(m) = c04::check_map(&m1, env.k1, env.k3) {
+            if let Err(m) = c04::check_map_k(&m1, env.k1, env.k3, env.k10) {
                 panic!("VERIF-VIOLATION C04: {m}");
             }
         }
